@@ -1,7 +1,7 @@
 (* C11 - projection and rejection: structural part.  Pinned theorems only. *)
 From Coq Require Import ZArith List Bool Reals Lra.
 From Flocq Require Import Core BinarySingleNaN.
-Require Import GV.FloatBase GV.FloatLemmas GV.AngleM GV.AngleProofs GV.GeonumM GV.GeonumProofs GV.TraitsM.
+Require Import GV.FloatBase GV.FloatLemmas GV.AngleM GV.AngleProofs GV.GeonumM GV.GeonumProofs GV.TraitsM GV.NewProofs GV.CtorProofs GV.PiBounds GV.TrigProofs GV.DotValue.
 Open Scope R_scope.
 
 (* near-zero target: zero magnitude; otherwise |a| * |pf| along b's own angle or b's angle + pi *)
@@ -45,3 +45,27 @@ Theorem C11_angle_project : forall (L : libm) a onto,
   (forall g k, project_to_dimension L g k = fmul (mag g) (aproject L (ang g) (new_with_blade k zero one))).
 Proof. intros. split; reflexivity. Qed.
 Print Assumptions C11_angle_project.
+
+(* Angle::project is cos(onto - self) with the REAL pi, within u + 1.0001e-10, for any libm accurate to u *)
+Theorem C11_project_value : forall (L : libm) (u : R) a onto, cos_acc L u ->
+  canonp (rem a) -> canonp (rem onto) -> (0 <= blade a)%Z -> (0 <= blade onto)%Z ->
+  fin (aproject L a onto) /\ Rabs (R_ (aproject L a onto) - cos (dir onto - dir a)) <= u + 10001 / 100000000000000.
+Proof. exact aproject_value. Qed.
+Print Assumptions C11_project_value.
+
+(* the projected length is |g||cos(direction difference)| within |g|(u + 1.0002e-10) + 2^-1075 *)
+Theorem C11_length_value : forall (L : libm) (u : R) g onto, cos_acc L u -> u <= / 1000 ->
+  canonp (rem (ang g)) -> canonp (rem (ang onto)) -> (0 <= blade (ang g))%Z -> (0 <= blade (ang onto))%Z ->
+  flt (fabs (mag onto)) EPSILON = false -> fin (mag (gproject L g onto)) ->
+  Rabs (R_ (mag (gproject L g onto)) - R_ (mag g) * Rabs (cos (dir (ang onto) - dir (ang g))))
+    <= Rabs (R_ (mag g)) * (u + 10002 / 100000000000000) + bpow radix2 (-1075).
+Proof. exact gproject_mag_value. Qed.
+Print Assumptions C11_length_value.
+
+Theorem C11_to_angle_value : forall (L : libm) (u : R) g onto, cos_acc L u -> u <= / 1000 ->
+  canonp (rem (ang g)) -> canonp (rem onto) -> (0 <= blade (ang g))%Z -> (0 <= blade onto)%Z ->
+  fin (mag (project_to_angle L g onto)) ->
+  Rabs (R_ (mag (project_to_angle L g onto)) - R_ (mag g) * Rabs (cos (dir onto - dir (ang g))))
+    <= Rabs (R_ (mag g)) * (u + 10002 / 100000000000000) + bpow radix2 (-1075).
+Proof. exact project_to_angle_mag_value. Qed.
+Print Assumptions C11_to_angle_value.
